@@ -139,9 +139,10 @@ impl FileImportResolver {
 	pub fn new(library_paths: Vec<PathBuf>) -> Self {
 		Self { library_paths }
 	}
-	/// Dynamically add new jpath, used by bindings
+	/// Dynamically add new jpath, used by bindings.
+	/// More recently added paths take precedence (`jsonnet_jpath_add` contract, same as `-J`).
 	pub fn add_jpath(&mut self, path: PathBuf) {
-		self.library_paths.push(path);
+		self.library_paths.insert(0, path);
 	}
 }
 
